@@ -477,6 +477,15 @@ struct VecMachine
 
       return true;
    }
+   static bool noDup(const SVectorBase<R>& v)
+   {
+      for(int k = 0; k < v.size(); k++)
+         for(int j = 0; j < k; j++)
+            if(v.index(j) == v.index(k))
+               return false;
+
+      return true;
+   }
    static bool inDim(const SVectorBase<R>& v, int n)
    {
       for(int k = 0; k < v.size(); k++)
@@ -714,7 +723,9 @@ struct VecMachine
          SSVectorBase<R>& x = *X[reg(1)];
          SVectorBase<R>& v = S[reg(c == "xmaddsv" ? 3 : 2)];
 
-         if(!inDim(v, x.dim())) SKIP
+         // assignment and multAdd need a sparse operand without repeated indices (the index array has dim+1 entries,
+         // multAdd marks cancelled entries with SOPLEX_VECTOR_MARKER)
+         if(!inDim(v, x.dim()) || ((c == "xsetsv" || c == "xmaddsv") && !noDup(v))) SKIP
             if(c == "xaddsv") x += v;
             else if(c == "xsubsv") x -= v;
             else if(c == "xsetsv") x = v;
@@ -1438,9 +1449,11 @@ struct ArrMachine
    std::string dump()
    {
       std::ostringstream o;
-      o << "size=" << a->size() << " elems=";
+      // capok: the storage holds at least size() elements (elements are only read if it does)
+      bool capok = capOk();
+      o << "size=" << a->size() << " capok=" << (capok ? 1 : 0) << " elems=";
 
-      for(int i = 0; i < a->size(); i++)
+      for(int i = 0; capok && i < a->size(); i++)
          o << val((*a)[i]) << ",";
 
       return o.str();
@@ -1476,7 +1489,8 @@ struct ArrMachine
       {
          int n = I(t[1]), m = I(t[2]);
 
-         if(n < 0 || n >= a->size() || m < 0)
+         // ClassArray::remove requires n + m <= size(); DataArray and Array remove fewer elements at the end
+         if(n < 0 || n >= a->size() || m < 0 || (KIND == 2 && n + m > a->size()))
             ret = "skip";
          else
             a->remove(n, m);
@@ -1499,8 +1513,14 @@ struct ArrMachine
                (*a)[i] = E(0);
          }
       }
-      else if(c == "remax")
-         ret = reMax(I(t[1]));
+      else if(c == "remax" || c == "remaxs")
+      {
+         // remaxs: only values that are not below size()
+         if(c == "remaxs" && I(t[1]) < a->size())
+            ret = "skip";
+         else
+            ret = reMax(I(t[1]));
+      }
       else if(c == "copy")
       {
          ARR* n = new ARR(*a);
@@ -1522,6 +1542,14 @@ struct ArrMachine
          ret = "unknown";
 
       return c + " ret=" + ret + " " + dump();
+   }
+   template <int K = KIND> typename std::enable_if<K == 1, bool>::type capOk()
+   {
+      return true;
+   }
+   template <int K = KIND> typename std::enable_if < K != 1, bool >::type capOk()
+   {
+      return a->max() >= a->size();
    }
    template <int K = KIND> typename std::enable_if<K == 1, std::string>::type removeLast(int)
    {
